@@ -110,8 +110,58 @@ def d1_size_chain(facts, rep):
         raise AnalysisBroken('size chains: fewer obligations than confirmed by reading (%d)' % n)
 
 
+def d1_cxx_allocators(facts, rep):
+    """'... nobj*size cannot be represented: every allocation entry point reports failure (... std::bad_alloc from the C++
+    allocators)'.  allocate(n) of the library's C++ allocators asks the C layer for n * sizeof(T) bytes.  The product wraps for
+    n > SIZE_MAX / sizeof(T) and a tiny block is returned for a huge array.  Rule: in every allocate(n) of the allocator class
+    templates, a multiplication of the element count with a constant that reaches an allocation call is dominated by a branch
+    edge that bounds the count from above (n <= max_size() / n > limit -> throw)."""
+    CLS = ('scalable_allocator', 'cache_aligned_allocator', 'tbb_allocator', 'memory_pool_allocator')
+    n = 0
+    for fn in facts.fns.values():
+        cls = (fn.cls or '').split('::')[-1]
+        if cls not in CLS or not fn.p.endswith('::allocate'):
+            continue
+        pv = [pp['v'] for pp in fn.d.get('params', [])][:1]
+        if not pv:
+            continue
+        muls = []
+        for pos, sx, node, d in calls(fn):
+            for a in node.get('a', []):
+                for x in fn.subtree(a):
+                    nd = fn.nodes[x]
+                    if nd.get('k') == 'binop' and nd['op'] == '*':
+                        sides = [fn.n(fn.strip(nd['l'])), fn.n(fn.strip(nd['r']))]
+                        if any(sd.get('k') == 'var' and sd.get('v') in pv for sd in sides):
+                            muls.append((pos, node, d))
+        if not muls:
+            continue
+
+        def bounded(a, truth):
+            nd = fn.n(fn.strip(a))
+            if nd.get('k') != 'binop' or nd['op'] not in ('<', '<=', '>', '>='):
+                return False
+            l, r = fn.n(fn.strip(nd['l'])), fn.n(fn.strip(nd['r']))
+            op = nd['op'] if truth else {'<': '>=', '<=': '>', '>': '<=', '>=': '<'}[nd['op']]
+            if l.get('k') == 'var' and l.get('v') in pv and op in ('<', '<='):
+                return True
+            if r.get('k') == 'var' and r.get('v') in pv and op in ('>', '>='):
+                return True
+            return False
+        e = edges_where(fn, bounded)
+        for pos, node, d in muls:
+            n += 1
+            ok, wit = dominated_by_edges(fn, pos, e, extra_elem=lambda p_, e_: is_call_to(fn, e_, shortnames=('throw_exception',)))
+            rep.ob('D1', 'K14', fn, '%s::allocate(n) bounds n before it multiplies by the element size' % cls, ok,
+                   'n * sizeof(T) wraps for n > SIZE_MAX / sizeof(T): %s is asked for a few bytes and the container gets a tiny block instead of '
+                   'std::bad_alloc' % (d or {}).get('n'), ln=node['ln'], key_extra='cxxalloc|%s' % cls)
+    if n < 4:
+        raise AnalysisBroken('C++ allocator allocate(n) functions: %d found, 4 expected (drivers/memory_pool.cpp instantiates them)' % n)
+
+
 def d1_entry(facts, rep):
     d1_size_chain(facts, rep)
+    d1_cxx_allocators(facts, rep)
     for name, chk in (('scalable_posix_memalign', 'isPowerOfTwoAtLeast'), ('scalable_aligned_malloc', 'isPowerOfTwo'),
                       ('scalable_aligned_realloc', 'isPowerOfTwo'), ('__TBB_malloc_safer_aligned_realloc', 'isPowerOfTwo')):
         for fn in facts.get(name):
@@ -138,6 +188,47 @@ def d1_entry(facts, rep):
             ok = ok and every_path_passes(fn, (fn.blocks[b]['succ'][si], -1), lambda p, e: p in set(x[0] for x in es))[0]
         rep.ob('D1', 'K13', fn, 'calloc: on nobj*size overflow the allocation is not attempted and errno is set', ok,
                'a wrapped product is allocated: the caller writes beyond a too-small block')
+        # the exact division test may be skipped only where the product cannot overflow: both factors known to be below a constant
+        # M with M*M <= 2^64.  Path-sensitive: every path that reaches the allocation has passed the exact test's "no overflow"
+        # edge, or edges bounding BOTH factors.
+        from engine.rules import product_walk
+        pv = [pp['v'] for pp in fn.d.get('params', [])]
+        if len(pv) == 2:
+            def facts_on_edge(b, si):
+                out = set()
+                for (a, truth) in fn.edge_conds(b, si):
+                    nd = fn.n(fn.strip(a))
+                    if nd.get('k') != 'binop':
+                        continue
+                    if nd['op'] in ('>=', '>', '<', '<='):
+                        l, r = fn.n(fn.strip(nd['l'])), fn.n(fn.strip(nd['r']))
+                        op = nd['op'] if truth else {'>=': '<', '>': '<=', '<': '>=', '<=': '>'}[nd['op']]
+                        c = fn.cv(nd['r'])
+                        if l.get('k') == 'var' and l.get('v') in pv and c is not None and op in ('<', '<=') and c * c <= (1 << 64):
+                            out.add('b%d' % pv.index(l['v']))
+                    if nd['op'] in ('==', '!=') and any(fn.nodes[x].get('k') == 'binop' and fn.nodes[x]['op'] == '/' for x in fn.subtree(fn.strip(a))):
+                        if truth == (nd['op'] == '=='):
+                            out.add('x')
+                    # `nobj && ...`: a zero factor cannot overflow either
+                    if False:
+                        pass
+                for (a, truth) in fn.edge_conds(b, si):
+                    nd = fn.n(fn.strip(a))
+                    if nd.get('k') == 'var' and nd.get('v') in pv and not truth:
+                        out.add('x')          # factor == 0: the product is 0
+                return out
+
+            def edge_tr(st, b, si):
+                return frozenset(st | facts_on_edge(b, si))
+            seen = product_walk(fn, frozenset(), lambda st, pos, e: st, edge_tr)
+            bad_states = []
+            for c in im:
+                for (b, st) in seen:
+                    if b == c[0][0] and not ('x' in st or ('b0' in st and 'b1' in st)):
+                        bad_states.append(sorted(st))
+            rep.ob('D1', 'K14', fn, 'calloc skips the exact overflow test only when both factors are below 2^32', not bad_states,
+                   'a path reaches the allocation knowing only %s: with one factor >= 2^32 the product can wrap and a tiny block is returned '
+                   'for a huge array' % bad_states[:2], key_extra='calloc-heuristic')
     # errno on every null-returning path
     for name in ('scalable_malloc', 'scalable_calloc', 'scalable_realloc', 'scalable_aligned_malloc', 'scalable_aligned_realloc',
                  '__TBB_malloc_safer_realloc', '__TBB_malloc_safer_aligned_realloc'):
